@@ -87,9 +87,14 @@ fn num(v: &Value) -> String {
     if i == 1000000007 { "18446744073709551616".into() } else if i == -1000000007 { "-18446744073709551616".into() } else { i.to_string() }
 }
 
+fn unmark(s: &str) -> String {
+    s.replace("@U2@", "\u{00C4}").replace("@U4@", "\u{1F600}")
+}
+
 fn judge_seq(c: &Value) -> Option<Value> {
     let w = c["w"].as_str().unwrap_or("");
-    let coll = c["coll"].as_str().unwrap_or("");
+    let coll_owned = unmark(c["coll"].as_str().unwrap_or(""));
+    let coll = coll_owned.as_str();
     let args: Vec<String> = c["args"].as_array().map(|a| a.iter().map(num).collect()).unwrap_or_default();
     let src = match w {
         "nth" | "get" => format!("{} dup {} {}", coll, args[0], w),
@@ -99,6 +104,8 @@ fn judge_seq(c: &Value) -> Option<Value> {
         "unboxcollect" => format!("{} dup dup length swap unbox depth 2 - swap drop collect", coll),
         "sslice" => format!("\"{}\" {} {} slice", coll, args[0], args[1]),
         "slength" => format!("\"{}\" length", coll),
+        "join" => format!("{} \"{}\" join", coll, c["sep"].as_str().unwrap_or("")),
+        "concat" => format!("{} concat", coll),
         _ => return None,
     };
     // simpler, robust form for unbox/collect
@@ -119,7 +126,7 @@ fn judge_seq(c: &Value) -> Option<Value> {
                 (Ok(()), _) => {
                     let top = xs.get_data(0).cloned().unwrap_or(Cell::Nil);
                     let okv = if exp.get("chars").is_some() {
-                        let s: String = exp["chars"].as_array().map(|a| a.iter().map(|x| x.as_str().unwrap_or("")).collect()).unwrap_or_default();
+                        let s: String = unmark(&exp["chars"].as_array().map(|a| a.iter().map(|x| x.as_str().unwrap_or("")).collect::<String>()).unwrap_or_default());
                         top.str().map(|t| t == s).unwrap_or(false)
                     } else {
                         cell_matches(&exp["v"], &top)
@@ -128,7 +135,7 @@ fn judge_seq(c: &Value) -> Option<Value> {
                         why.push(format!("result {:?}, the sequence model says {}", top, if exp.get("chars").is_some() { exp["chars"].clone() } else { exp["v"].clone() }));
                     }
                     // the collection still referenced below the result is unchanged
-                    if !coll.starts_with('"') && w != "sslice" && w != "slength" {
+                    if !coll.starts_with('"') && w != "sslice" && w != "slength" && w != "join" && w != "concat" {
                         let mut y = fresh();
                         let _ = y.eval(coll);
                         if xs.get_data(1) != y.get_data(0) {
